@@ -199,9 +199,59 @@ func runPre(j job, g int32, yseed uint64, pre *prebuilt) (out []byte, err error)
 		if err != nil {
 			return nil, err
 		}
+		mode := uint64(0) // the sequential reference run: io.ReadAll
+		if g >= 0 {
+			mode = 1 + j.Seed%2
+		}
+		switch mode {
+		case 1:
+			// the caller's buffer is a window of a larger array of its own with canaries behind it
+			lr := prng.New(j.Seed, 77)
+			for {
+				p := mon.GuardedBuf(lr.Pick(1, 2, 3, 5, 7, 8, 9, 16, 31, 33, 40, 97, 1+lr.Intn(40)))
+				n, rerr := r.Read(p)
+				out = append(out, p[:n]...)
+				if !mon.GuardIntact(p) {
+					return out, fmt.Errorf("Read with a buffer of %d bytes wrote behind the buffer", len(p))
+				}
+				if rerr == io.EOF {
+					return out, nil
+				}
+				if rerr != nil {
+					return out, rerr
+				}
+			}
+		case 2:
+			// the buffers of all goroutines are neighbouring 64-byte windows of one arena: what a
+			// reader writes behind its window lands in the window of the next goroutine
+			if g >= 0 && int(g) < arenaSlots-1 {
+				lr := prng.New(j.Seed, 78)
+				for {
+					// even goroutines use the front of their slot, odd ones the back: what an odd
+					// one writes behind its window is the front of the next slot
+					l := lr.Pick(64, 33, 17, 9, 5, 1+lr.Intn(64))
+					win := arena[int(g)*arenaSlot : int(g)*arenaSlot+l]
+					if g%2 == 1 {
+						win = arena[int(g+1)*arenaSlot-l : int(g+1)*arenaSlot]
+					}
+					n, rerr := r.Read(win)
+					out = append(out, win[:n]...)
+					if rerr == io.EOF {
+						return out, nil
+					}
+					if rerr != nil {
+						return out, rerr
+					}
+				}
+			}
+		}
 		return io.ReadAll(r)
 	}
 }
+
+const arenaSlot, arenaSlots = 64, 80
+
+var arena = make([]byte, arenaSlot*arenaSlots)
 
 var reuseProps lzma.Properties // retuned by main between NewWriter calls (see main)
 
